@@ -19,6 +19,7 @@ var loadTemplates = []string{
 	"Cannot have multiple schema entry points, consider schema extensions instead.",
 	"Schema root %s refers to a type %s that does not exist.",
 	"Schema root %s is defined more than once.",
+	"Schema root %s must be an object type, %s is a %s.",
 	"Undefined type \"%s\".",
 	"Undefined type %s.",
 	"%s type %s must be %s.",
